@@ -1144,6 +1144,15 @@ def main(tier, seed, replay=None):
     ]
     if replay:
         rp = json.load(open(replay))['replay']
+        if 'lh_scenario' in rp:
+            from . import X01
+            X01._init()
+            sc = dict(rp['lh_scenario'], bugs=X01.detect_as_is())
+            t = X01.run_script(sc)
+            bad, _ = X01.judge(out, [t], 'replay (lighthouse configuration writer)')
+            for (i, clause, at) in bad:
+                out.violation('LhStore/' + X01.signature(t, clause, at), clause, {'event_index': at, 'events': X01._window(t, at)}, rp)
+            return out.finish()
         _init()
         case = rp['case']
         t = execute(case)
@@ -1204,8 +1213,31 @@ def main(tier, seed, replay=None):
                       {'event_index': at, 'fmt': t['fmt'], 'content': t['content'], 'corrupt': all_cases[i].get('corrupt'),
                        'observation': t['ev'][-1]['obs'], 'memory': final_of_trace(t)['regs'][:1]},
                       {'case': strip(all_cases[i])})
-    out.evaluations = len(all_traces)
-    per = {}
+    # 3b. "lighthouse geometry and calibration ... round-trip ... any subset of base stations" on the way
+    # configuration file -> Crazyflie memory -> file as the library does it: LighthouseConfigWriter /
+    # LighthouseMemHelper (cflib/localization/lighthouse_config_manager.py) driven through complete store and
+    # read requests, judged by the LhConfig monitor (spec/LhConfig*.tla, the extra spec X01; only its
+    # single-request families: every subset shape incl. the empty one x write-failure pattern x persist result)
+    from . import X01
+    lh_as_is = sorted(X01.detect_as_is())
+    lh_scs = X01.fam_store(tier, rng) + X01.fam_reads(tier, rng)
+    for i, sc in enumerate(lh_scs):
+        sc['backend'] = 'memory' if i % 2 else 'fake'
+        sc['bugs'] = lh_as_is
+    lh_traces = X01.run_scenarios(lh_scs)
+    lh_bad, lh_drift = X01.judge(out, lh_traces, 'lighthouse configuration writer/reader (LhConfigTrace)')
+    out.conformance['lh_store_code_to_spec'] = {'traces': len(lh_traces), 'rejected_by_monitor': len(lh_bad), 'drift': len(lh_drift)}
+    lh_sig = {}
+    for (i, clause, at) in lh_bad:
+        sig = 'LhStore/' + X01.signature(lh_traces[i], clause, at)
+        n_ev = (at, sum(len(c['ev']) for c in lh_traces[i]['chunks']))
+        if sig not in lh_sig or n_ev < lh_sig[sig][0]:
+            lh_sig[sig] = (n_ev, i, clause, at)
+    for sig, (n_ev, i, clause, at) in sorted(lh_sig.items()):
+        out.violation(sig, clause, {'event_index': at, 'events': X01._window(lh_traces[i], at)},
+                      {'lh_scenario': {k: v for k, v in lh_scs[i].items() if k != 'bugs'}})
+    out.evaluations = len(all_traces) + len(lh_traces)
+    per = {'lighthouse-store/read requests': len(lh_traces)}
     for c in all_cases:
         per[c['fmt']] = per.get(c['fmt'], 0) + 1
     out.extra['cases_per_format'] = per
